@@ -117,6 +117,10 @@ IoTouches(io) == {i \in 1..Len(io) : io[i].e \in {"W", "CR", "SL", "UL"}}
 NoTraceViol(r, c) ==
   IF ~IsRejectOrNoop(c.qm, c.cur) THEN {}
   ELSE  {"rejected/no-op call touched the WAL" : i \in IoTouches(r.io)}
+   \* bytes of EARLIER calls still in the BufWriter (policies that do not flush per call): handing them
+   \* to the OS changes the contents of the WAL files
+   \cup (IF c.hasPrev /\ c.prevW[3] > 0 /\ \E i \in 1..Len(r.io) : r.io[i].e = "FL"
+         THEN {"rejected/no-op call flushed buffered bytes of earlier calls into the WAL files"} ELSE {})
    \cup (IF r.res.k \in {"ok"} /\ r.res.wal # 0 THEN {"no-op reported wal_bytes_written > 0"} ELSE {})
    \cup (IF "st" \in DOMAIN r /\ c.hasPrev /\
             (r.st.qs # c.prevQs \/ r.st.w[1] # c.prevW[1] \/ r.st.w[2] # c.prevW[2]
